@@ -52,10 +52,10 @@ ASSUMPTIONS = [
 
 MODELS_ALL = ["plain", "nested", "inputs", "itemspace", "pandas", "module"]
 MODELS_QUICK = ["plain", "inputs", "pandas"]
+MODELS_RANK = ["plain", "inputs", "nested", "itemspace", "pandas", "module"]     # simplest first (shrinking)
 SAVE_ERR = "ENOSPC"
 LOAD_ERR = "EIO"
 NSLOTS = 5          # path, _BAK1 .. _BAK4 (a 4th backup must never exist)
-K_CHUNKS = 4        # a (scenario) is split into this many work items by fault index residue
 
 
 # --------------------------------------------------------------------------------------
@@ -805,9 +805,10 @@ def shrink_candidates(case):
     if len(fs) > 1:
         out.append(dict(case, faults=fs[1:]))
         out.append(dict(case, faults=fs[:1]))
-    if case["model"] != "plain":
-        out.append(dict(case, model="plain"))
-        out.append(dict(case, model="plain", faults=[dict(f, occ=0) for f in fs]))
+    rank = MODELS_RANK.index(case["model"])
+    for simpler in MODELS_RANK[:rank]:
+        out.append(dict(case, model=simpler))
+        out.append(dict(case, model=simpler, faults=[dict(f, occ=0) for f in fs]))
     if case["kind"] == "save":
         if case["gens"] > 2:
             out.append(dict(case, gens=2))
@@ -859,8 +860,13 @@ def _variants(name, kind_of_scenario):
     return out
 
 
+# work items are cut so that each costs roughly the same (about 40-100 scenario runs)
+_ZIP_CHUNKS = {"plain": 3, "nested": 6, "inputs": 7, "itemspace": 4, "pandas": 10, "module": 10}
+_SAVE2_DIR_CHUNKS = {"plain": 6, "nested": 16, "inputs": 24, "itemspace": 10, "pandas": 32, "module": 24}
+
+
 def work_items(tier, seed):
-    items = []
+    heavy, light = [], []
     models = MODELS_QUICK if tier == "quick" else MODELS_ALL
     gens = [1, 2, 5] if tier == "quick" else [1, 2, 3, 4, 5]
     for mid in models:
@@ -870,25 +876,37 @@ def work_items(tier, seed):
                 for env in envs:
                     if tier == "quick" and env == "exdev" and n not in (1, 2):
                         continue
-                    if tier == "quick" and n == 5 and mid != "plain":
+                    if tier == "quick" and n == 5 and cont == "zip" and mid != "plain":
                         continue
-                    nch = K_CHUNKS * (3 if cont == "zip" and mid != "plain" else 1)
+                    nch = _ZIP_CHUNKS[mid] if cont == "zip" else 1
                     for ch in range(nch):
-                        items.append({"kind": "save", "model": mid, "container": cont, "gens": n, "env": env,
-                                      "chunk": [ch, nch]})
+                        (heavy if cont == "zip" else light).append(
+                            {"kind": "save", "model": mid, "container": cont, "gens": n, "env": env,
+                             "chunk": [ch, nch]})
             for reg in ("none", "same"):
-                items.append({"kind": "load", "model": mid, "container": cont, "reg": reg, "chunk": [0, 1]})
-                items.append({"kind": "corrupt", "model": mid, "container": cont, "reg": reg, "chunk": [0, 1]})
+                light.append({"kind": "load", "model": mid, "container": cont, "reg": reg, "chunk": [0, 1]})
+                light.append({"kind": "corrupt", "model": mid, "container": cont, "reg": reg, "chunk": [0, 1]})
     if tier == "thorough":
         # two faults per history: gen1 ok, gen2 FAULT, gen3 FAULT
         for mid in MODELS_ALL:
-            for cont in ("dir", "zip"):
-                if cont == "zip" and mid != "plain":
-                    continue
-                nch = 16 if cont == "dir" else 32
-                for ch in range(nch):
-                    items.append({"kind": "save2", "model": mid, "container": cont, "gens": 2, "env": None,
-                                  "chunk": [ch, nch]})
+            nch = _SAVE2_DIR_CHUNKS[mid]
+            for ch in range(nch):
+                heavy.append({"kind": "save2", "model": mid, "container": "dir", "gens": 2, "env": None,
+                              "chunk": [ch, nch], "sub": [0, 1]})
+        for ch in range(32):
+            for r in range(4):
+                heavy.append({"kind": "save2", "model": "plain", "container": "zip", "gens": 2, "env": None,
+                              "chunk": [ch, 32], "sub": [r, 4]})
+    # spread the light items evenly between the heavy ones (the runner hands out consecutive batches)
+    items = []
+    step = max(1, len(heavy) // max(1, len(light)))
+    li = 0
+    for i, it in enumerate(heavy):
+        items.append(it)
+        if i % step == step - 1 and li < len(light):
+            items.append(light[li])
+            li += 1
+    items.extend(light[li:])
     return items
 
 
@@ -942,7 +960,8 @@ def run_item(item, tier):
     acc = _Acc()
     ch, nch = item["chunk"]
     kind = item["kind"]
-    base = {k: v for k, v in item.items() if k != "chunk"}
+    base = {k: v for k, v in item.items() if k not in ("chunk", "sub")}
+    sub_r, sub_n = item.get("sub", [0, 1])
     if kind == "corrupt":
         base["kind"] = "load"
         cors = list_corruptions(base)
@@ -983,7 +1002,7 @@ def run_item(item, tier):
         for k in range(len(pts1)):
             for mode, err in _variants(pts1[k], "save"):
                 firsts.append((k, mode, err))
-        if ch == 0:
+        if ch == 0 and sub_r == 0:
             acc.extra["first_faults:" + _scen_name(item)] = len(firsts)
         n2max = 0
         for idx, (k, mode, err) in enumerate(firsts):
@@ -994,8 +1013,11 @@ def run_item(item, tier):
             c1 = dict(base, faults=[f1])
             pts2 = count_points(c1, 1)["points"]
             n2max = max(n2max, len(pts2))
-            acc.counts["points_total"] = acc.counts.get("points_total", 0) + len(pts2)
+            if sub_r == 0:
+                acc.counts["points_total"] = acc.counts.get("points_total", 0) + len(pts2)
             for k2 in range(len(pts2)):
+                if k2 % sub_n != sub_r:
+                    continue
                 for mode2, err2 in _variants(pts2[k2], "save"):
                     f2 = {"k": k2, "mode": mode2, "err": err2}
                     f2.update(address(pts2, k2))
